@@ -1484,8 +1484,9 @@ def first_diff(a: Node, b: Node, path=''):
 # =================================================================================================================
 
 def site_reused(root):
-    """True when some node *object* occurs at one depth in two positions that differ as let-insertion sites.  The renderer
-    records insertion sites by (id(node), depth), so the two occurrences are confused (known finding 'site-reused'):
+    """'block' (a) / 'binder' (b) when some node *object* occurs at one depth in two positions that differ as let-insertion
+    sites, else None.  The renderer records insertion sites by (id(node), depth), so the two occurrences are confused
+    (known finding 'site-reused'):
       (a) once as the root of a let-insertion block (If branch, agg init argument, StreamAgg query, relational child) and
           once in an ordinary position;
       (b) once as the child for which its parent binds names (a lambda / let body; the aggregation of an AggFilter /
@@ -1520,19 +1521,21 @@ def site_reused(root):
         walk(n)
         return list(twice.values())
 
+    found = None
     for nid, by_depth in occ.items():
         for poss in by_depth.values():
             if len(poss) < 2:
                 continue
             if len({p[0] for p in poss}) == 2:
-                return True
+                return 'block'
             names = [p[1:] for p in poss if any(p[1:])]
-            if names:      # a let can be inserted at the node only for a shared descendant that uses a name bound for it
+            if names and not found:      # a let can be inserted at the node only for a shared descendant using a name bound for it
                 for d in shared_inside(nodes[nid]):
                     if any((e & set(d.free_vars)) or (a & set(d.free_agg_vars)) or (sc & set(d.free_scan_vars))
                            for e, a, sc in names):
-                        return True
-    return False
+                        found = 'binder'
+                        break
+    return found
 
 
 def agg_share_classes(root):
@@ -1636,6 +1639,8 @@ def _check_case(case, guard=None, guard2=None):
     reused = site_reused(root)
     if reused:
         classes.append('site_reused_shape')
+        if reused == 'binder':
+            classes.append('site_reused_shape:binder')
         if guard2:
             STATS['excluded_known'] += 1
             return False, classes + ['excluded_known'], []
